@@ -77,11 +77,12 @@ Spec == Init /\ [][Next]_svars
 (* ---- classification of the pre-state of a transition ---- *)
 NonEmpty(c) == \E k \in Keys : c[k] # 0
 Kind(d) == LET s == st[d] IN
-  IF s.mode = "closed" THEN "c"
+  IF s.mode = "closed" THEN (IF NonEmpty(s.last) THEN "cl" ELSE "c")
   ELSE IF s.mode = "queued" THEN "Q" \o (IF s.ex THEN "E" ELSE "N") \o (IF NonEmpty(s.cont) THEN "n" ELSE "z")
   ELSE (IF s.ex THEN "E" ELSE "N")
        \o (IF \E k \in Keys : s.ovl[k] = Big THEN "b" ELSE IF \E k \in Keys : s.ovl[k] # U THEN "w" ELSE "e")
        \o (IF NonEmpty(s.cont) THEN "n" ELSE "z") \o (IF s.dirty THEN "d" ELSE "k")
+       \o (IF Comp = "flagged" /\ NonEmpty(s.last) THEN "l" ELSE "")
 RECURSIVE KindsFrom(_)
 KindsFrom(i) == IF i > Len(DBSeq) THEN "" ELSE Kind(DBSeq[i]) \o "." \o KindsFrom(i + 1)
 Cls == KindsFrom(1) \o "f" \o ToString(nfl)
